@@ -4,6 +4,7 @@ import re
 from mir import Origins, strip, short_span
 from dtable import Walker, Unrecognised, pm
 from rules import agent as A
+from rules import agent_e2 as AE
 from e1 import field_accesses
 
 LEVEL = "other"
@@ -21,69 +22,7 @@ TIMING_ALLOW = {
 
 
 def defaults(prog, chk, rule="default-schedule"):
-    b = prog.bodies[A.REQ + "::new"]
-    multi = {i for i in range(len(b.locals)) if len(b.defs().get(i, [])) > 1 and not b.is_arg(i)}
-    tt = prog.adts.get("stun_types::TransportType")
-    names = {v["name"]: int(v["discr"]) for v in tt["variants"]} if tt else {}
-    rows = {}
-    for T in (0, 1):
-        cmp_args = []
-
-        def oracle(o, t, body):
-            s = strip(o)
-            if pm(s, ("call", r"TransportType as std::cmp::PartialEq>::eq$", None), b):
-                cmp_args.append(s.a[2])
-                return T
-            if s.k == "call" and "has_attribute" in s.a[0]:
-                return 0
-            return None
-        w = Walker(prog, b, oracle, lambda *a: None, track_locals=multi, mut_arg_event=False)
-        try:
-            beh = w.run()
-        except Unrecognised as e:
-            chk.fail(rule, "new|unrecognised-guard", short_span(b.term(e.bb)["span"]), str(e)[:300])
-            return
-        tuples = [e[2] for e in beh if e[0] == "set" and strip(e[2]).k == "agg" and strip(e[2]).a[0] == "tuple" and len(strip(e[2]).a[1]) == 2]
-        rows[T] = (tuples[-1] if tuples else None, cmp_args)
-    # which side is compared against: the constant must be TransportType::Tcp
-    ca = rows[1][1]
-    tcp_ok = False
-    if ca:
-        other = strip(ca[0][1])
-        if other.k == "const" and isinstance(other.a[0], str) and "mem" in other.a[0]:
-            m = re.search(r"'mem': '([0-9a-f]+)'", other.a[0])
-            if m:
-                val = int.from_bytes(bytes.fromhex(m.group(1)), "little")
-                tcp_ok = names.get("Tcp") == val
-        tcp_ok = tcp_ok and pm(ca[0][0], ("param", "transport"), b)
-    chk.ob(rule, "schedule selected by `transport == TransportType::Tcp`", tcp_ok, b.loc(), detail=repr(ca[:1]))
-    tcp, udp = rows[1][0], rows[0][0]
-    ok_tcp = tcp is not None and pm(tcp, ("agg", "tuple", [("call", r"Vec::<u64>::new$", []), ("const", TCP_LAST)]), b)
-    chk.ob(rule, "TCP: no retransmissions, time-out %d ms" % TCP_LAST, ok_tcp, b.loc(), detail=repr(tcp))
-    arrays = []
-    for bi, si, s in b.iter_stmts():
-        if s["k"] == "assign" and s["rv"]["k"] == "aggregate" and s["rv"].get("agg") == "array":
-            vals = [o.get("v", {}).get("int") for o in s["rv"]["ops"]]
-            if b.ty(s["rv"]["of"])["s"] == "u64":
-                arrays.append(vals)
-    ok_udp = (udp is not None and strip(udp).a[1][1] == __import__("mir").O("const", UDP_LAST)
-              and strip(strip(udp).a[1][0]).k == "call" and re.search(r"into_vec|from", strip(strip(udp).a[1][0]).a[0])
-              and arrays == [UDP_DEFAULT])
-    chk.ob(rule, "UDP: intervals %r ms then %d ms" % (UDP_DEFAULT, UDP_LAST), ok_udp, b.loc(), detail="tuple %r arrays %r" % (udp, arrays))
-    chk.ob(rule, "TCP time-out equals the sum of the UDP schedule", TCP_LAST == sum(UDP_DEFAULT) + UDP_LAST,
-           how="%d = %d + %d" % (TCP_LAST, sum(UDP_DEFAULT), UDP_LAST))
-    # the tuple's components feed the aggregate fields of the same name
-    og = Origins(prog, b)
-    for bi, si, s in b.iter_stmts():
-        if s["k"] == "assign" and s["rv"]["k"] == "aggregate" and s["rv"].get("adt") == A.REQ:
-            rv = s["rv"]
-            f = dict(zip(rv["fields"], [og.operand(o) for o in rv["ops"]]))
-            ok = (strip(f["timeouts_ms"]).k == "field" and strip(f["timeouts_ms"]).a[1] == "0"
-                  and strip(f["last_retransmit_timeout_ms"]).k == "field" and strip(f["last_retransmit_timeout_ms"]).a[1] == "1"
-                  and strip(strip(f["timeouts_ms"]).a[0]) == strip(strip(f["last_retransmit_timeout_ms"]).a[0]))
-            chk.ob(rule, "(list, last) pair feeds timeouts_ms / last_retransmit_timeout_ms in that order", ok, short_span(s["span"]),
-                   detail="%r / %r" % (f["timeouts_ms"], f["last_retransmit_timeout_ms"]))
-            chk.ob(rule, "timeout_i starts at 0", f["timeout_i"] == __import__("mir").O("const", 0), short_span(s["span"]), detail=repr(f["timeout_i"]))
+    AE.req_new(prog, chk, rule, {"schedule"})
 
 
 def run(prog, chk, tier):
@@ -99,7 +38,7 @@ def run(prog, chk, tier):
     chk.trusted += ["rustc MIR", "std Instant/Duration arithmetic", "spec tables in pylib/rules/agent.py"]
     chk.assumptions += ["default constants are written as literals in StunRequestState::new (a computed table would fail closed)"]
     defaults(prog, chk)
-    A.req_poll_table(prog, chk)
+    AE.req_poll(prog, chk)
     for f, allow in TIMING_ALLOW.items():
         accs = field_accesses(prog, A.REQ_V, f)
         for a in accs:
